@@ -135,13 +135,15 @@ def recheck_props(workdir, pid):
     theorems = re.findall(r"^\s*Theorem\s+(\w+)", text, re.M)
     # Print Assumptions output: either "Closed under the global context" or "Axioms:" blocks
     blocks = re.split(r"(?=Closed under the global context|Axioms:)", out)
-    assumptions = []
-    for b in blocks[1:]:
+    printed = re.findall(r"^\s*Print Assumptions\s+(\w+)\s*\.", re.sub(r"\(\*.*?\*\)", "", text, flags=re.S), re.M)
+    by_name = {}
+    for name, b in zip(printed, blocks[1:]):       # the blocks come in the order of the Print Assumptions commands
         if b.startswith("Closed"):
-            assumptions.append("closed")
+            by_name[name] = "closed"
         else:
             names = re.findall(r"^([A-Za-z_][\w.']*)\s*:", b, re.M)
-            assumptions.append(sorted(set(names)))
+            by_name[name] = sorted(set(n for n in names if n != "Axioms"))
+    assumptions = [by_name.get(t, "not printed") for t in theorems]
     return ok, theorems, assumptions, out
 
 FORBIDDEN = re.compile(r"\b(Admitted|admit|Axiom|Axioms|Parameter|Parameters|Conjecture|Admit Obligations|"
